@@ -18,6 +18,20 @@
 #include "c19_io.h"
 #include <stdlib.h>
 
+#ifdef VERIF_CBMC
+/* memcpy as a byte loop (solver build; every caller of the linked units gets it).  CBMC's built-in memcpy is an array constraint over the
+ * whole destination OBJECT: after the daemon copied a line into the message it is assembling, the line counter in the same buffer is no
+ * constant any more, so the message length, the result of send() and the number of iterations of the delivery loop all become symbolic
+ * (measured on seq_schedule, 4 events: 230 000 symex steps / 36 s with the built-in, 20 000 steps / 3 s with the loop).  Lengths are
+ * concrete everywhere in this harness; the unwinding assertion on memcpy.0 guards the bound. */
+void *memcpy(void *dst, const void *src, size_t n)
+{
+  size_t i;
+  for (i = 0; i < n; i++) ((unsigned char *) dst)[i] = ((const unsigned char *) src)[i];
+  return dst;
+}
+#endif
+
 #define vbi_proxy_msg_logger c19_real_msg_logger
 #include "src/proxy-msg.c"
 #undef vbi_proxy_msg_logger
@@ -74,7 +88,6 @@ static int c18_guard_ok(void) { return 1; }
 #ifndef W_NBUF
 #define W_NBUF 3
 #endif
-#define W_FRAME_DATA 1
 #include "h_c19_common.h"
 
 #ifndef DEVOPEN
@@ -89,14 +102,34 @@ static int c18_guard_ok(void) { return 1; }
 
 static uint64_t dbl_bits(double d) { uint64_t u; memcpy(&u, &d, 8); return u; }
 
+/* Stores into objects that hold pointers or path-selecting counters (queue elements, client structs, the environment script C19)
+ * are written member by member / byte by byte, never as memcpy/memset: CBMC models those by array constraints over the whole
+ * object, after which no member of it is a constant for symex any more. */
+static double dbl_from_bits(uint64_t u) { union { uint64_t u; double d; } x; x.u = u; return x.d; }
+
 /* symbolic frame at the model device */
 static void w_frame(void)
 {
-  unsigned i;
+  unsigned i, b;
   C19.frame_ret = (int32_t) (int8_t) in_u8();
   C19.frame_lines = (int32_t) in_u8();
-  { uint64_t t = in_u64(); memcpy(&C19.frame_ts, &t, 8); }
-  for (i = 0; i < C19_MAXLINES; i++) in_bytes(C19.frame_data[i], 64);
+  C19.frame_ts = dbl_from_bits(in_u64());
+  for (i = 0; i < C19_MAXLINES; i++) for (b = 0; b < 64; b++) C19.frame_data[i][b] = in_u8();
+}
+
+/* symbolic contents of the frame buffers (time stamp, lines; line count 0..W_MAXLINES) */
+static void w_fill_frames(void)
+{
+  unsigned j, k, b;
+  for (j = 0; j < W_NBUF; j++) {
+    PROXY_QUEUE *q = W_q[j];
+    q->timestamp = dbl_from_bits(in_u64());
+    q->line_count = (int) in_u8(); V_ASSUME(q->line_count >= 0 && q->line_count <= W_MAXLINES);
+    for (k = 0; k < W_MAXLINES; k++) {
+      q->lines[k].id = in_u32(); q->lines[k].line = in_u32();
+      for (b = 0; b < 56; b++) q->lines[k].data[b] = in_u8();
+    }
+  }
 }
 
 /* subscribed: the client is granted something.  takes_new_frame: the clients a new frame is queued for - the subscribed ones and
@@ -126,6 +159,7 @@ V_HARNESS(h_fwd)
   V_INIT();
   w_init();
   w_device(1);
+  w_fill_frames();
   V_ASSUME(!VBI_RAW_SERVICES(d->all_services));                         /* raw (unsliced) forwarding is outside the claim */
   for (i = 0; i < NCL; i++) w_client((i == NCL - 1) ? BDEV : 0, 0);
   w_link();
@@ -190,6 +224,7 @@ V_HARNESS(h_deliver)
   V_INIT();
   w_init();
   w_device(1);
+  w_fill_frames();
   for (i = 0; i < NCL; i++) w_client(0, 0);
   w_link();
   w_queue();
@@ -401,8 +436,11 @@ V_HARNESS(h_svc)
 #ifndef REVOKE
 #define REVOKE 0
 #endif
+#ifndef SRESET
+#define SRESET 0        /* 1: the request clears the table first (a memset over the client struct: symex loses its constants) */
+#endif
 #define SQ_F 8
-struct sq_frame { int n; uint64_t ts; uint8_t data[W_MAXLINES][64]; };
+struct sq_frame { int n; uint64_t ts; uint32_t id[W_MAXLINES]; uint8_t data[W_MAXLINES][64]; };
 static struct sq_frame SQ_fr[SQ_F]; static unsigned SQ_nf;
 static int SQ_pend[3][SQ_F]; static unsigned SQ_np[3];          /* shadow: frame indices pending per client, capture order */
 static int SQ_conn[3];
@@ -415,10 +453,13 @@ static void sq_capture(int have_frame)
   if (proxy.dev[0].p_capture == NULL) return;             /* a closed device is not in the daemon's select() set */
   w_frame();
   C19.frame_ret = have_frame ? 1 : 0; C19.frame_lines = W_MAXLINES;        /* concrete line count: it is the size of the message buffer the daemon allocates */
-  for (i = 0; i < W_MAXLINES; i++) memcpy(C19.frame_data[i], &lid[i % 3], 4);
+  for (i = 0; i < W_MAXLINES; i++) {                     /* concrete service id of line i (byte stores: a memcpy would hide the constant from symex) */
+    C19.frame_data[i][0] = (uint8_t) lid[i % 3]; C19.frame_data[i][1] = (uint8_t) (lid[i % 3] >> 8);
+    C19.frame_data[i][2] = (uint8_t) (lid[i % 3] >> 16); C19.frame_data[i][3] = (uint8_t) (lid[i % 3] >> 24);
+  }
   f->n = W_MAXLINES;
-  memcpy(&f->ts, &C19.frame_ts, 8);
-  for (i = 0; i < W_MAXLINES; i++) memcpy(f->data[i], C19.frame_data[i], 64);
+  f->ts = dbl_bits(C19.frame_ts);
+  for (i = 0; i < W_MAXLINES; i++) { unsigned b; for (b = 0; b < 64; b++) f->data[i][b] = C19.frame_data[i][b]; f->id[i] = lid[i % 3]; }
   /* shadow: out of buffers -> the oldest queued frame is given up by the clients still waiting for it */
   has_free = proxy.dev[0].p_free != NULL;
   if (!has_free) {
@@ -462,27 +503,36 @@ static void sq_writable(unsigned c)
   V_ASSERT(req->state == REQ_STATE_FORWARD && req->io.writeLen == 0, "seq_connection_kept");
   V_ASSERT(C19.send_calls - s0 == n_reply + SQ_np[c] && req->p_sliced == NULL, "seq_all_pending_frames_sent_once");
   if (n_reply) {
-    V_ASSERT(s0 < C19_SENDLOG && C19.sent[s0].fd == req->io.sock_fd && be32(C19.sent[s0].bytes + 4) == reply_type, "seq_reply_first");
+    unsigned q;
+    V_ASSERT(s0 < C19_SENDLOG, "seq_send_log_long_enough");
+    for (q = 0; q < C19_SENDLOG; q++)
+      if (q == s0) V_ASSERT(C19.sent[q].fd == req->io.sock_fd && be32(C19.sent[q].bytes + 4) == reply_type, "seq_reply_first");
     V_REACH("reply");
   }
   for (j = 0; j < SQ_F; j++) {
-    const struct sq_frame *f; const uint8_t *m; unsigned nsel = 0; uint64_t ts; uint32_t nl, nr;
+    const struct sq_frame *f; unsigned nsel = 0, q;
     if (j >= SQ_np[c]) continue;
     s = s0 + n_reply + j; f = &SQ_fr[SQ_pend[c][j]];
-    V_ASSERT(s < C19_SENDLOG && C19.sent[s].fd == req->io.sock_fd, "seq_sent_to_own_socket");
-    m = C19.sent[s].bytes;
-    memcpy(&ts, m + 8, 8); memcpy(&nl, m + 16, 4); memcpy(&nr, m + 20, 4);
-    V_ASSERT(be32(m + 4) == MSG_TYPE_SLICED_IND && ts == f->ts, "seq_capture_order_and_timestamp");
-    for (k = 0; k < W_MAXLINES; k++) {
-      uint32_t id; memcpy(&id, f->data[k], 4);
-      if ((int) k < f->n && (id & req->all_services) != 0) {
-        V_ASSERT(0 == memcmp(m + 24 + 64 * nsel, f->data[k], 64), "seq_granted_lines_in_order");
-        nsel++;
+    V_ASSERT(s < C19_SENDLOG, "seq_send_log_long_enough");
+    /* the record index is compared against constants (a symbolic index into the array of records inside C19 is resolved by CBMC 6.11
+       relative to element 0 of the byte array: `C19.sent[s].bytes[0]' became `sent[[0]].bytes[100 s]', an out-of-bounds read of a
+       field-split array whose value is unconstrained - the reason for the UNCONFIRMED counterexample of the first version) */
+    for (q = 0; q < C19_SENDLOG; q++) {
+      const struct c19_sendrec *r = &C19.sent[q]; uint64_t ts; uint32_t nl, nr;
+      if (q != s) continue;
+      V_ASSERT(r->fd == req->io.sock_fd, "seq_sent_to_own_socket");
+      memcpy(&ts, r->bytes + 8, 8); memcpy(&nl, r->bytes + 16, 4); memcpy(&nr, r->bytes + 20, 4);
+      V_ASSERT(be32(r->bytes + 4) == MSG_TYPE_SLICED_IND && ts == f->ts, "seq_capture_order_and_timestamp");
+      for (k = 0; k < W_MAXLINES; k++) {
+        if ((int) k < f->n && (f->id[k] & req->all_services) != 0) {
+          V_ASSERT(0 == memcmp(r->bytes + 24 + 64 * nsel, f->data[k], 64), "seq_granted_lines_in_order");
+          nsel++;
+        }
       }
+      V_ASSERT(nl == nsel && nr == 0 && be32(r->bytes) == 24 + 64 * nsel && r->len_asked == 24 + 64 * nsel && r->ret == (int32_t) (24 + 64 * nsel), "seq_only_granted_lines");
+      V_REACH("delivered");
+      if (nsel > 0 && nsel < W_MAXLINES) V_REACH("filtered");
     }
-    V_ASSERT(nl == nsel && nr == 0 && be32(m) == 24 + 64 * nsel && C19.sent[s].len_asked == 24 + 64 * nsel && C19.sent[s].ret == (int32_t) (24 + 64 * nsel), "seq_only_granted_lines");
-    V_REACH("delivered");
-    if (nsel > 0 && nsel < W_MAXLINES) V_REACH("filtered");
   }
   SQ_np[c] = 0;
 }
@@ -513,9 +563,8 @@ static void sq_service_req(unsigned c)
   PROXY_CLNT *a = W_cl[c]; vbi_bool taken; unsigned s0 = C19.send_calls;
   if (!SQ_conn[c]) return;
   V_ASSERT(vbi_proxy_msg_is_idle(&a->io), "seq_schedule_request_on_idle_connection");      /* schedule error otherwise: a W event must flush the last reply first */
-  memset(&a->msg_buf, 0, sizeof(VBIPROXY_MSG_HEADER) + sizeof(VBIPROXY_SERVICE_REQ));
   a->msg_buf.head.type = MSG_TYPE_SERVICE_REQ; a->msg_buf.head.len = sizeof(VBIPROXY_MSG_HEADER) + sizeof(VBIPROXY_SERVICE_REQ);
-  a->msg_buf.body.service_req.reset = 1; a->msg_buf.body.service_req.commit = 1; a->msg_buf.body.service_req.strict = 0;
+  a->msg_buf.body.service_req.reset = SRESET; a->msg_buf.body.service_req.commit = 1; a->msg_buf.body.service_req.strict = 0;
   a->msg_buf.body.service_req.services = SREQ;
   taken = vbi_proxyd_take_message(a, &a->msg_buf);
   V_ASSERT(taken && a->state == REQ_STATE_FORWARD && a->p_sliced == NULL, "seq_service_req_taken");
